@@ -170,6 +170,26 @@ def binop(it, op, a, b, inplace=False):
 
 
 def percent_format(it, fmt, b):
+    if isinstance(b, dict):
+        import re
+        out = ""
+        pos = 0
+        for m in re.finditer(r"%\((\w+)\)s|%%", fmt):
+            lit = fmt[pos:m.start()]
+            if "%" in lit:
+                raise OutOfSubset("only %(name)s formatting is modelled")
+            out = out + lit if not (isinstance(out, str) and out == "") else lit
+            if m.group(0) == "%%":
+                out = out + "%"
+            else:
+                if m.group(1) not in b:
+                    _raise(KeyError(m.group(1)))
+                out = out + str_(it, b[m.group(1)])
+            pos = m.end()
+        lit = fmt[pos:]
+        if "%" in lit:
+            raise OutOfSubset("only %(name)s formatting is modelled")
+        return out + lit
     args = list(b) if isinstance(b, tuple) else [b]
     out = ""
     i = 0
@@ -957,13 +977,34 @@ def m_zip(it, *vs, strict=False):
 @model(range)
 def m_range(it, *a):
     if has_sym(a):
-        raise OutOfSubset("symbolic range outside a loop contract")
+        if len(a) == 1 and isinstance(a[0], SInt):
+            from .loops import IterView
+            n = a[0]
+            return IterView(SInt(z3.If(n.t > 0, n.t, z3.IntVal(0))), lambda k: k if isinstance(k, (int, SInt)) else SInt(I(k)), "range")
+        raise OutOfSubset("symbolic range(start, stop) outside the modelled forms")
     return range(*a)
 
 
 @model(iter)
 def m_iter(it, v):
-    return IterHost(iter_concrete(it, v))
+    from .loops import as_view
+    w = as_view(it, v)
+    if w is not None and not isinstance(concrete_of(w.length_), int):
+        return SymIter(w)
+    return IterHost(iter_concrete(it, v) if w is None else w.iterate(it))
+
+
+class SymIter(ModelHost):
+    """iterator over a symbolic-length view: position is a symbolic int"""
+
+    def __init__(self, view, pos=0):
+        self.view, self.pos = view, pos
+
+    def iterate(self, it):
+        raise OutOfSubset("draining a symbolic iterator")
+
+    def getattr(self, it, name):
+        raise OutOfSubset(f"iterator.{name}")
 
 
 class IterHost(ModelHost):
@@ -981,10 +1022,20 @@ class IterHost(ModelHost):
 
 @model(next)
 def m_next(it, h, *default):
+    if it.ex.guards:
+        raise NeedFork("iterator advanced inside a merged if")
     if isinstance(h, IterHost):
         if h.pos < len(h.items):
             h.pos += 1
             return h.items[h.pos - 1]
+        if default:
+            return default[0]
+        _raise(StopIteration())
+    if isinstance(h, SymIter):
+        if it.truth(SBool(I(h.pos) < I(h.view.length_))):
+            x = h.view.at(h.pos if isinstance(h.pos, (int, SInt)) else SInt(I(h.pos)))
+            h.pos = h.pos + 1
+            return x
         if default:
             return default[0]
         _raise(StopIteration())
